@@ -51,7 +51,8 @@ def fields_of(scan_answer):
 
 def body_for(field, v):
     _, w, pos, ch, comma, dp = field
-    spec = '{:' + (',' if comma else '') + (('.%df' % (w - dp)) if dp is not None else '') + '}'
+    # (as repaired: a field without a decimal point asks for no decimals; it used the bare '{}' form)
+    spec = '{:' + (',' if comma else '') + (('.%df' % (w - dp)) if dp is not None else '.0f') + '}'
     return spec.format(abs(v))
 
 
@@ -229,7 +230,7 @@ def run(chk):
     return chk.finish(
         level='proof', level_text='',
         trusted_base=['Lean 4.33.0 kernel', 'axioms: ' + ', '.join(sorted({a for v in chk.theorems.values() for a in v})),
-                      "Python format(abs(value), ',.Nf') / '{}'.format: external contract (body supplied as data)",
+                      "Python format(abs(value), ',.Nf'): external contract (body supplied as data)",
                       'correspondence harness harness/checks/c19.py'],
         checker_cmd='lake build QbeeModel.Props.C19 && lake env lean .lake/audit/Audit_C19.lean',
         rule=f'all format strings over {{# . , + - & ! _ a blank}} up to length {maxlen} (exhaustive) + random longer, '
